@@ -183,32 +183,70 @@ pub proof fn lemma_C05_FINDING_outgoing_self_dependency(v: NavV, p: PV, x: UseV,
     lemma_C02_a_never_self(bucket(v.defs, x.name), p, (v.provf)(x.name), d);
 }
 //@tags C15
-/// FINDING (proved from the operational spec): when the parameter is not found on the definition line (multi-line
-/// signature, no cached text), the call's from_ranges — which the protocol reads relative to the CALLER's document —
-/// is the name span of the CALLEE's definition (a range of another document / line).
-pub proof fn lemma_C15_FINDING_outgoing_from_range_fallback(v: NavV, p: PV, d: DefV, dep: Seq<char>, dd: DefV, u: Uri)
-    requires param_ranges(v.cache, p, d.line, dep) is None
-    ensures out_call_for(v, p, d, dep, dd, u).from_ranges == seq![def_name_range(dd)],
-        out_call_for(v, p, d, dep, dd, u).from_ranges[0] == out_call_for(v, p, d, dep, dd, u).to.selection_range,
-{}
-
-//@tags C15
-/// the from-range find_parameter_ranges reports: on the definition's protocol line, from the byte column of the first
-/// SUBSTRING occurrence of the name on that line to that column + the UTF-8 length of the name; well-formed and
-/// untruncated when the end column fits (explicit hypothesis).  NOTE: substring, not parameter: see the report
-/// (`def my_db(db)` -> the `db` inside `my_db`).
-pub proof fn lemma_C15_param_range_exact(cache: Map<PV, String>, file: PV, line: usize, name: Seq<char>)
-    requires 1 <= line, line_fits(line), param_ranges(cache, file, line, name) is Some,
-        str_find(text_lines(Some(cache[file]@))[line - 1], name)->0 + utf8_len(name) <= 0xffff_ffff,
+/// C15 (positive since the repair of F-15c) — every from_range find_parameter_ranges reports is EXACTLY the recorded
+/// span of a usage of the dependency's name on the fixture's definition line: protocol line = line - 1, columns
+/// start_char..end_char unchanged (explicit no-truncation hypotheses), well-formed iff start_char <= end_char.
+/// Composed with unit visit (parameters of a fixture are recorded as usages with the span of the parameter TOKEN):
+/// the range is the parameter, never a substring of another identifier on the line.  Conversely every such usage
+/// contributes one range, in list order (multiplicity included).
+pub proof fn lemma_C15_from_ranges_are_recorded_parameter_spans(uses: Map<PV, Seq<UseV>>, file: PV, line: usize, name: Seq<char>, k: int)
+    requires param_ranges(uses, file, line, name) is Some, 0 <= k < (param_ranges(uses, file, line, name)->0).len()
     ensures ({
-        let r = (param_ranges(cache, file, line, name)->0)[0];
-        let s = str_find(text_lines(Some(cache[file]@))[line - 1], name)->0;
-        &&& (param_ranges(cache, file, line, name)->0).len() == 1
-        &&& r.start.line as int == line - 1 && r.end.line == r.start.line
-        &&& r.start.character as int == s && r.end.character as int == s + utf8_len(name)
-        &&& range_wf(r)
+        let rs = param_ranges(uses, file, line, name)->0;
+        let kept = uses[file].filter(param_use(line, name));
+        &&& uses.contains_key(file) && rs.len() == kept.len() && rs[k] == use_range(kept[k])
+        &&& uses[file].contains(kept[k]) && kept[k].line == line && kept[k].name == name
+        &&& (1 <= line && line_fits(line) && col_fits(kept[k].start_char) && col_fits(kept[k].end_char)) ==> ({
+                &&& rs[k].start.line as int == line - 1 && rs[k].end.line == rs[k].start.line
+                &&& rs[k].start.character as int == kept[k].start_char && rs[k].end.character as int == kept[k].end_char
+                &&& range_wf(rs[k]) <==> kept[k].start_char <= kept[k].end_char
+            })
     })
-{}
+{
+    let kept = uses[file].filter(param_use(line, name));
+    lemma_filter_mem(uses[file], param_use(line, name), kept[k]);
+    assert(kept.contains(kept[k]));
+}
+//@tags C15
+/// when is there NO from_range of its own: the file has no usages entry, or no usage of that name is recorded ON THE
+/// DEFINITION LINE (e.g. a multi-line signature: the parameter is recorded on a later line).  The call then carries
+/// the FALLBACK: the name span of the CALLEE's definition — a range of another line / document, which the protocol
+/// reads relative to the caller's document.  Stated as the fact it is (known finding F-15c, second half).
+pub proof fn lemma_C15_outgoing_from_range_fallback(v: NavV, p: PV, d: DefV, dep: Seq<char>, dd: DefV, u: Uri)
+    ensures
+        param_ranges(v.uses, p, d.line, dep) is None <==>
+            (!v.uses.contains_key(p) || forall|i: int| 0 <= i < v.uses[p].len() ==> !param_use(d.line, dep)(#[trigger] v.uses[p][i])),
+        param_ranges(v.uses, p, d.line, dep) is None ==> out_call_for(v, p, d, dep, dd, u).from_ranges == seq![def_name_range(dd)]
+            && out_call_for(v, p, d, dep, dd, u).from_ranges[0] == out_call_for(v, p, d, dep, dd, u).to.selection_range,
+        param_ranges(v.uses, p, d.line, dep) is Some ==> out_call_for(v, p, d, dep, dd, u).from_ranges == param_ranges(v.uses, p, d.line, dep)->0,
+{
+    if v.uses.contains_key(p) {
+        let s = v.uses[p];
+        let pu = param_use(d.line, dep);
+        if forall|i: int| 0 <= i < s.len() ==> !pu(#[trigger] s[i]) {
+            if s.filter(pu).len() > 0 { lemma_filter_mem(s, pu, s.filter(pu)[0]); assert(s.filter(pu).contains(s.filter(pu)[0])); }
+        } else {
+            let i = choose|i: int| 0 <= i < s.len() && pu(#[trigger] s[i]);
+            lemma_filter_mem(s, pu, s[i]);
+            assert(s.contains(s[i]));
+        }
+    }
+}
+//@tags C15
+/// multiplicity: a usage recorded TWICE gives two equal from_ranges (the parameters of a function that is both a
+/// `test_*` function and fixture-decorated are recorded by both visitors — unit visit) — the list is not duplicate-free
+pub proof fn lemma_C15_param_ranges_repeat_double_records(uses: Map<PV, Seq<UseV>>, file: PV, u: UseV)
+    requires uses.contains_key(file), uses[file] == seq![u, u]
+    ensures param_ranges(uses, file, u.line, u.name) == Some(seq![use_range(u), use_range(u)])
+{
+    let s = seq![u, u];
+    let pu = param_use(u.line, u.name);
+    reveal_with_fuel(Seq::filter, 3);
+    assert(s.drop_last() =~= seq![u]);
+    assert(seq![u].drop_last() =~= Seq::<UseV>::empty());
+    assert(s.filter(pu) =~= seq![u, u]);
+    assert(s.filter(pu).map_values(use_range_fn()) =~= seq![use_range(u), use_range(u)]);
+}
 
 // ---- vacuity guards: each of these must FAIL -------------------------------------------------------------------
 /// outgoing calls resolve dependencies as go-to-definition does (FALSE: F-05b, and the self-dependency finding)
@@ -218,6 +256,28 @@ proof fn canary_outgoing_resolves_like_goto(v: NavV, p: PV, dep: Seq<char>)
 {
     lemma_best_props(bucket(v.defs, dep), p_same(p, fs_true()));
     lemma_first_match_in(bucket(v.defs, dep), p_same(p, fs_true()));
+}
+/// the from_ranges come from a text search: one range per call (FALSE since F-15c was repaired: one per recorded usage)
+proof fn canary_param_ranges_single_range(uses: Map<PV, Seq<UseV>>, file: PV, line: usize, name: Seq<char>)
+    requires param_ranges(uses, file, line, name) is Some
+    ensures (param_ranges(uses, file, line, name)->0).len() == 1
+{}
+/// the from_ranges are duplicate-free (FALSE: double-recorded parameters)
+proof fn canary_param_ranges_no_duplicates(uses: Map<PV, Seq<UseV>>, file: PV, line: usize, name: Seq<char>)
+    requires param_ranges(uses, file, line, name) is Some
+    ensures (param_ranges(uses, file, line, name)->0).no_duplicates()
+{}
+/// a file with recorded usages always yields own from_ranges (FALSE: multi-line signatures -> fallback)
+proof fn canary_param_ranges_never_fall_back(uses: Map<PV, Seq<UseV>>, file: PV, line: usize, name: Seq<char>)
+    requires uses.contains_key(file), uses[file].len() > 0
+    ensures param_ranges(uses, file, line, name) is Some
+{}
+/// usages of the name on OTHER lines count too (the line test matters)
+proof fn canary_param_ranges_ignore_line(uses: Map<PV, Seq<UseV>>, file: PV, line: usize, u: UseV)
+    requires uses.contains_key(file), uses[file] == seq![u], u.line != line
+    ensures param_ranges(uses, file, line, u.name) is Some
+{
+    reveal_with_fuel(Seq::filter, 2);
 }
 /// every dependency yields an outgoing call
 proof fn canary_outgoing_one_call_per_dependency(v: NavV, p: PV, d: DefV)
